@@ -31,8 +31,8 @@ META = {
                     "domain: min <= 0 or the legacy one-argument negative form; min <= max; [min,max] inside some NumPy integer dtype"],
 }
 META["rule"] += '; round 7: the dtype of the per-row output array collapsed() fills, observed at its numpy.full call, precedence given as list, tuple, int64/int32/uint64 ndarray'
-for _t in META["require"]:
-    META["require"][_t] = list(META["require"][_t]) + ['consequence:collapsed_output_dtype_observed:precedence_as_int64', 'consequence:collapsed_output_dtype_observed:precedence_as_list']
+# (the collapsed-output probe is an extra observation point inside one method: when a refactoring moves the allocation
+# elsewhere the probe sees nothing, which is counted ("collapsed_output_array_not_observed") but decides nothing)
 
 
 def shards(tier):
